@@ -25,6 +25,7 @@ import (
 	"sync"
 	"time"
 
+	dtlsflight "github.com/pion/dtls/v3/internal/flight"
 	dtlsstate "github.com/pion/dtls/v3/internal/state"
 	"github.com/pion/dtls/v3/pkg/protocol"
 )
@@ -345,3 +346,5 @@ func vfSO(opts ...Option) []ServerOption {
 }
 
 func vfVerStr(v protocol.Version) string { return fmt.Sprintf("%d.%d", v.Major, v.Minor) }
+
+type dtlsflightHandshakeCacheItem = dtlsflight.HandshakeCacheItem
